@@ -45,6 +45,7 @@ structure Dump where
   nodes : List DNode := []
   rx : List String := []
   tx : List (String × Nat) := []
+  txUnarmed : List String := []     -- outstanding requests without a running retransmission timer
   txseq : Nat := 0
   dp : List (Nat × String × Nat) := []
 deriving Repr, BEq
@@ -87,7 +88,11 @@ def parseDump (line : String) : Dump :=
     rx := listOf (lookD m "rx" "_"),
     tx := (listOf (lookD m "tx" "_")).map fun t => match splitOn1 t '/' with
       | [k, c] => (k, natD c)
+      | [k, c, _] => (k, natD c)
       | _ => (t, 0),
+    txUnarmed := (listOf (lookD m "tx" "_")).filterMap fun t => match splitOn1 t '/' with
+      | [k, _, "-"] => some k
+      | _ => none,
     txseq := hexD (lookD m "txseq" "0"),
     dp := (listOf (lookD m "dp" "_")).filterMap fun t => match splitOn1 t '/' with
       | [s, k, i] => some (hexD s, k, natD i)
@@ -360,6 +365,9 @@ def check (ps : PState) (evLine : String) (obs : List String) (fault : Option St
       | none =>
         if d.tx.length != prev.tx.length || !sessUnchanged [] || d.dp != prev.dp then
           fs := fs ++ ["C09 a response matching no outstanding request had an effect"]
+    -- C09: an outstanding request is retried or abandoned only by its timer: every one must have a timer running
+    for k in d.txUnarmed do
+      fs := fs ++ [s!"C09 outstanding request {k} has no retransmission timer running: it can neither be retried nor abandoned"]
     if typ == "tmo" && lookD m "k" "" == "tx" then
       match ps.outst.find? (·.1 == (peer, seq)), prev.tx.find? (·.1 == s!"p{peer}-{seq}") with
       | some o, some t =>
@@ -498,6 +506,18 @@ def check (ps : PState) (evLine : String) (obs : List String) (fault : Option St
               --  and cannot be told apart here: the flag is then judged by the lock-step comparison only)
               if explicit == 0 && mine.any fun r => r.trig / Gen.report.USAR_TRIG_TERMR % 2 == 0 then
                 fs := fs ++ [s!"C12 the final report of URR {u} (session {hexN seid}) is not marked as a termination report"]
+        -- Remove URR: what the data plane returned for the removed URR comes back in this very response, flagged TERMR —
+        -- whatever else the request does with that URR (a Query URR for it gives an immediate report next to it)
+        if !c0.tainted && ps.faultPct == 0 then
+          for u in (idRules "rurr").eraseDups do
+            if c0.urrs.contains u then
+              let returned := obs.any fun o => match wordsOf o with
+                | ["dp", s', "remove", "urr", i, "ok", reps] => hexD s' == seid && natD i == u && reps != "_" && reps != ""
+                | _ => false
+              if returned then
+                let rsp := (sends.filter fun s => s.kind == "modrsp").flatMap fun s => parseUsars (lookD s.f "usar" "_")
+                if !(rsp.any fun r => r.urr == u && r.trig / Gen.report.USAR_TRIG_TERMR % 2 == 1) then
+                  fs := fs ++ [s!"C12 URR {u} of session {hexN seid} was removed and the data plane returned its usage; the response carries no termination report for it"]
         tbl := (seid, c) :: tbl.filter (·.1 != seid)
     -- the bookkeeping itself: a URR counts as referenced by precisely the PDRs whose current URR list names it,
     -- and a PDR's recorded list is what Create / Update PDR last gave it
